@@ -757,6 +757,12 @@ func (r *NRun) mutate(sp *MsgSpec, mu Mutation) bool {
 		}
 		i := mu.A % nvotes
 		j := (i + 1) % nvotes
+		if !a.owns(idxOf(sp.Votes[j].Sender.ID)) { // never sign with the key of the node under test
+			j = (j + 1) % nvotes
+		}
+		if j == i || !a.owns(idxOf(sp.Votes[j].Sender.ID)) {
+			return false
+		}
 		sp.Votes[i].Sender.Sig = a.sign(idxOf(sp.Votes[j].Sender.ID), sp.Votes[i].H, sp.Votes[i].HeaderRaw())
 	case "votes-outsider":
 		if w.Cfg.Outsiders == 0 || nvotes == 0 {
